@@ -423,3 +423,9 @@ if __name__ == "__main__":
     import gen_trans_wf         # countnz / fixupL of util.c: own extension of the translator (tools/c2gal_wf.py)
     n = gen_trans_wf.gen_wf()
     print("gen_trans: WellFormedGen.v %s/2 functions translated" % n)
+    import gen_trans_pm         # ?PresetMap of p?memory.c (+ ifill of util.c): own extension of the translator (tools/c2gal_pm.py)
+    n = gen_trans_pm.gen_pm()
+    print("gen_trans: PresetMapGen.v %s/5 functions translated" % n)
+    import gen_trans_busy       # pxgstrf_mark_busy_descends: own extension of the translator (tools/c2gal_busy.py)
+    n = gen_trans_busy.gen_busy()
+    print("gen_trans: BusyGen.v %s/1 functions translated" % n)
